@@ -63,6 +63,11 @@ Notation "'do' x <- r ; k" := (rbind r (fun x => k)) (at level 200, x name, r at
 Notation "'do' ' p <- r ; k" := (rbind r (fun x_ => match x_ with p => k end))
   (at level 200, p pattern, r at level 100, k at level 200).
 
+Fixpoint mapM {A B} (f : A -> result B) (l : list A) : result (list B) :=
+  match l with [] => Ok [] | x :: l' => do y <- f x; do ys <- mapM f l'; Ok (y :: ys) end.
+Fixpoint foldM {A B} (f : B -> A -> result B) (l : list A) (b : B) : result B :=
+  match l with [] => Ok b | x :: l' => do b' <- f b x; foldM f l' b' end.
+
 (* ---------------------------------------------------------------- insertion-ordered dict with pair keys *)
 Definition k2 : Set := (Z * Z)%type.
 Definition k2_eqb (a b : k2) : bool := Z.eqb (fst a) (fst b) && Z.eqb (snd a) (snd b).
